@@ -133,3 +133,26 @@ Definition mcounterexamples (gran uselock : bool) (c : cfg) : list (list nat) :=
   filter (fun sc => let s := mexec gran uselock (minit c) sc in
                     negb (same_items (emitted s) (emitted seqrun)))
          (mall_scheds gran uselock (4 * nmsgs c) (minit c)).
+
+(* ---- following a trace of the real code (correspondence): a trace step names a thread, the
+   class of the program point at which the thread stopped next, and whether anything happened *)
+Definition pcclass (t : mthr) : nat :=
+  match mpc_ t, mtodo t with
+  | MCnt, [] => 4 | MCnt, _ => 0 | MReg, _ => 1 | MStore, _ => 2 | MEmit _, _ => 3
+  end.
+Definition class_of (s : mst) (i : nat) : nat :=
+  match nth_error (mthrs s) i with Some t => pcclass t | None => 9 end.
+Fixpoint madvance (gran uselock : bool) (fuel : nat) (s : mst) (i tgt : nat) : mst :=
+  match fuel with
+  | O => s
+  | S f => let s' := mstep gran uselock s i in
+           if Nat.eqb (class_of s' i) tgt then s' else madvance gran uselock f s' i tgt
+  end.
+Definition msync (gran uselock : bool) (s : mst) (tr : list (nat * nat * bool)) : mst :=
+  fold_left (fun (s : mst) (x : nat * nat * bool) => let '(i, tgt, mv) := x in if mv then madvance gran uselock 4 s i tgt else s) tr s.
+
+Definition residue_list (m : mmap) (cns : list nat) (n : nat) : list (nat * nat * bool * nat) := residue m cns n.
+
+Definition quad_eqb (a b : nat * nat * bool * nat) : bool :=
+  let '(a1, a2, a3, a4) := a in let '(b1, b2, b3, b4) := b in
+  Nat.eqb a1 b1 && Nat.eqb a2 b2 && Bool.eqb a3 b3 && Nat.eqb a4 b4.
